@@ -256,6 +256,7 @@ func isHeif(buf []byte) bool {
 			isFTYPBrand(buf[8:12], "heix") ||
 			(isFTYPBrand(buf[8:12], "mif1") && isFTYPBrand(buf[16:20], "heic")) ||
 			(isFTYPBrand(buf[8:12], "mif1") && isFTYPBrand(buf[20:24], "heic")) ||
+			(isFTYPBrand(buf[8:12], "msf1") && isFTYPBrand(buf[16:20], "hevc")) ||
 			(isFTYPBrand(buf[8:12], "msf1") && isFTYPBrand(buf[20:24], "hevc")))
 }
 
@@ -283,6 +284,7 @@ func isFTYPBox(buf []byte) bool {
 func isAVIF(buf []byte) bool {
 	return isFTYPBox(buf) &&
 		(isFTYPBrand(buf[8:12], "avif") ||
+			(isFTYPBrand(buf[8:12], "mif1") && isFTYPBrand(buf[16:20], "avif")) ||
 			(isFTYPBrand(buf[8:12], "mif1") && isFTYPBrand(buf[20:24], "avif")))
 }
 
